@@ -29,17 +29,40 @@ use crate::bytes_to_cstr;
 use crate::transport::FsCacheReqHandler;
 
 impl<S: BitmapSlice + Send + Sync> PassthroughFs<S> {
+    fn open_inode_flags(&self, flags: i32) -> i32 {
+        let mut new_flags = self.get_writeback_open_flags(flags);
+        if !self.cfg.allow_direct_io && flags & libc::O_DIRECT != 0 {
+            new_flags &= !libc::O_DIRECT;
+        }
+        new_flags | libc::O_CLOEXEC
+    }
+
     fn open_inode(&self, inode: Inode, flags: i32) -> io::Result<File> {
         let data = self.inode_map.get(inode)?;
         if !is_safe_inode(data.mode) {
             Err(ebadf())
         } else {
-            let mut new_flags = self.get_writeback_open_flags(flags);
-            if !self.cfg.allow_direct_io && flags & libc::O_DIRECT != 0 {
-                new_flags &= !libc::O_DIRECT;
-            }
-            data.open_file(new_flags | libc::O_CLOEXEC, &self.proc_self_fd)
+            data.open_file(self.open_inode_flags(flags), &self.proc_self_fd)
         }
+    }
+
+    /// Same as `open_inode()`, but the permission check is made with the caller's credentials:
+    /// the inode's `O_PATH` file is obtained first (with `inode_file_handles` that needs
+    /// CAP_DAC_READ_SEARCH), only the re-open through `/proc/self/fd` runs as `uid:gid`.
+    fn open_inode_as(
+        &self,
+        inode: Inode,
+        flags: i32,
+        uid: libc::uid_t,
+        gid: libc::gid_t,
+    ) -> io::Result<File> {
+        let data = self.inode_map.get(inode)?;
+        if !is_safe_inode(data.mode) {
+            return Err(ebadf());
+        }
+        let path_file = data.get_file()?;
+        let (_uid, _gid) = set_creds(uid, gid)?;
+        reopen_fd_through_proc(&path_file, self.open_inode_flags(flags), &self.proc_self_fd)
     }
 
     /// Check the HandleData flags against the flags from the current request
@@ -646,11 +669,13 @@ impl<S: BitmapSlice + Send + Sync> FileSystem for PassthroughFs<S> {
         self.validate_path_component(name)?;
 
         let data = self.inode_map.get(parent)?;
+        // Get the directory file before switching credentials: with `inode_file_handles` this is an
+        // open_by_handle_at(2), which needs CAP_DAC_READ_SEARCH.
+        let file = data.get_file()?;
 
         let res = {
             let (_uid, _gid) = set_creds(ctx.uid, ctx.gid)?;
 
-            let file = data.get_file()?;
             // Safe because this doesn't modify any memory and we check the return value.
             unsafe { libc::mkdirat(file.as_raw_fd(), name.as_ptr(), mode & !umask) }
         };
@@ -812,8 +837,7 @@ impl<S: BitmapSlice + Send + Sync> FileSystem for PassthroughFs<S> {
                         None
                     };
 
-                    let (_uid, _gid) = set_creds(ctx.uid, ctx.gid)?;
-                    self.open_inode(entry.inode, args.flags as i32)
+                    self.open_inode_as(entry.inode, args.flags as i32, ctx.uid, ctx.gid)
                 };
                 match open_existing() {
                     Ok(f) => f,
@@ -1240,11 +1264,13 @@ impl<S: BitmapSlice + Send + Sync> FileSystem for PassthroughFs<S> {
         self.validate_path_component(name)?;
 
         let data = self.inode_map.get(parent)?;
+        // Get the directory file before switching credentials: with `inode_file_handles` this is an
+        // open_by_handle_at(2), which needs CAP_DAC_READ_SEARCH.
+        let file = data.get_file()?;
 
         let res = {
             let (_uid, _gid) = set_creds(ctx.uid, ctx.gid)?;
 
-            let file = data.get_file()?;
             // Safe because this doesn't modify any memory and we check the return value.
             unsafe { libc::symlinkat(linkname.as_ptr(), file.as_raw_fd(), name.as_ptr()) }
         };
